@@ -469,7 +469,7 @@ func report(vdir, prop, tier string, seed int, results []*engine.UnitResult, t0 
 					samples = append(samples, map[string]interface{}{"obligation": o.Name, "kind": o.Kind, "desc": o.Desc, "answer": o.Status, "solver": o.Solver, "smt_chars": len(o.Hyp) + len(o.Goal)})
 				}
 			case "sat":
-				violations = append(violations, writeViolation(vdir, prop, o, ""))
+				violations = append(violations, writeViolationReplayed(vdir, prop, o, tryReplay(r, o)))
 			default:
 				if inBaseline[o.Name] {
 					violations = append(violations, writeViolation(vdir, prop, o, "obligation discharged on the unchanged tree is no longer discharged (solvers: "+o.Status+")"))
@@ -631,6 +631,13 @@ func trustedBase() []string {
 }
 
 func writeViolation(vdir, prop string, o *engine.Obligation, reason string) string {
+	return writeViolationReplayed(vdir, prop, o, replayOutcome{Why: reason})
+}
+
+// writeViolationReplayed writes the replay file; the VIOLATION line ends with
+// no-failing-input-found unless the solver's model was confirmed on the real code.
+func writeViolationReplayed(vdir, prop string, o *engine.Obligation, rp replayOutcome) string {
+	reason := rp.Why
 	name := strings.NewReplacer("/", "_", "#", "_", " ", "_", ":", "_", "*", "_", "|", "_").Replace(o.Name)
 	path := filepath.Join(vdir, "replays", prop, name+".json")
 	rec := map[string]interface{}{
@@ -644,10 +651,16 @@ func writeViolation(vdir, prop string, o *engine.Obligation, reason string) stri
 		"reason":      reason,
 		"model":       o.Model,
 		"crosses_abstracted_call": o.Abstr,
-		"replayed_on_real_code":   false,
+		"replayed_on_real_code":   rp.Confirmed,
+	}
+	if rp.Attempted {
+		rec["replay"] = map[string]interface{}{"call": rp.Call, "model_predicts": rp.Predicted, "real_code": rp.Actual, "confirmed": rp.Confirmed, "test": rp.Test, "go_test_output": rp.Output, "note": rp.Why}
 	}
 	data, _ := json.MarshalIndent(rec, "", " ")
 	os.WriteFile(path, data, 0o644)
+	if rp.Confirmed {
+		return fmt.Sprintf("VIOLATION property=%s replay=%s obligation=%s (%s) replayed-on-real-code: %s %s", prop, path, o.Name, o.Desc, rp.Call, rp.Actual)
+	}
 	return fmt.Sprintf("VIOLATION property=%s replay=%s obligation=%s (%s) no-failing-input-found", prop, path, o.Name, o.Desc)
 }
 
